@@ -24,10 +24,17 @@ def sh(cmd, cwd=None, extra=None):
     return p.returncode, (p.stdout + p.stderr)
 
 
+FAST = os.environ.get("RECONFIRM_FAST") == "1"   # skip the (already done) validation of the proposal itself
 wt = tempfile.mkdtemp(prefix="seedchk-")
 os.rmdir(wt)
 meta = {"id": sid, "property": prop, "source": src}
 try:
+    if FAST:
+        old = json.load(open(f"/verif/seeded/{sid}/meta.json"))
+        for k in ("applies", "tests_with_change", "demo_with_change_exit", "demo_with_change_tail",
+                  "demo_without_change_exit"):
+            meta[k] = old.get(k)
+        raise StopIteration
     rc, out = sh(f"git -C /repo worktree add --detach {wt} HEAD")
     assert rc == 0, out
     rc, out = sh(f"git apply {src}/patch.diff", cwd=wt)
@@ -44,8 +51,11 @@ try:
     rc0, out0 = sh(f"/venv/bin/python {src}/demo.py", cwd=wt, extra=px)
     meta["demo_without_change_exit"] = rc0
     assert rc1 != 0 and rc0 == 0, f"demo exit with={rc1} without={rc0}\n{out1[-500:]}\n{out0[-500:]}"
+except StopIteration:
+    pass
 finally:
-    sh(f"git -C /repo worktree remove --force {wt}")
+    if not FAST:
+        sh(f"git -C /repo worktree remove --force {wt}")
     shutil.rmtree(wt, ignore_errors=True)
 
 # run the checks against it: in a second scratch worktree with the change applied, selected through VERIF_REPO
@@ -90,6 +100,13 @@ with open(os.path.join(src, "notes.md")) as f:
     meta["needs"] = f.read()[:1500]
 meta["ran"] = ["git apply patch.diff (scratch worktree of /repo HEAD)", "pytest (190 passed)",
                "demo.py with change (exit != 0)", "demo.py without change (exit 0)"] + [f"./check {c} --tier quick" for c in checks]
+try:
+    with open(os.path.join(dst, "meta.json")) as f:
+        for k, v in json.load(f).items():
+            if k in ("note", "superseded_by_fix"):
+                meta[k] = v
+except (OSError, ValueError):
+    pass
 with open(os.path.join(dst, "meta.json"), "w") as f:
     json.dump(meta, f, indent=1)
 print(sid, "confirmed; caught by", meta["caught_by"], {c: r["lines"][-1:] for c, r in results.items()})
